@@ -225,6 +225,12 @@ func cliExec(rundir string, n int, c *cliCase) (impl, prop string) {
 		}
 	case r.status == 0 && c.mustFail:
 		prop = "FAIL C15 the exchange failed but the tool exits with status 0 and prints " + trunc(r.stdout, 80)
+		for _, u := range append([]replySpec{c.auth}, c.users...) {
+			if u.beh.kind == "badCrc" {
+				prop += " ;; FAIL C04 a reply with a wrong checksum is not reported as an error by the tool"
+				break
+			}
+		}
 	case r.status == 0:
 		if !docOK {
 			prop = "FAIL C15 status 0 without exactly one JSON document on standard output: " + trunc(r.stdout, 80) + " ;; FAIL C13 the output is not one valid JSON document: " + trunc(r.stdout, 80)
@@ -460,6 +466,26 @@ func init() {
 					c.args = append(c.args, c.reqText)
 					add(c)
 				}
+			}
+		}
+		// a split run of three requests in which one reply arrives damaged (wrong checksum) or not at all: the run fails,
+		// whichever of the three it is
+		for pos := 0; pos < 3; pos++ {
+			for _, kind := range []string{"badCrc", "closeBefore", "garbled"} {
+				c := base(fmt.Sprintf("split run, reply %d %s", pos, kind))
+				c.split, c.mustFail = true, true
+				ms := mkReq(c, 3, true)
+				answers(c, ms)
+				switch kind {
+				case "badCrc":
+					c.users[pos] = replySpec{behaviour{kind: "badCrc", items: encItems([]rscp.Message{{Tag: 0x00800001, DataType: rscp.UChar8, Value: uint8(1)}})}, "P invalidCrc 0"}
+				case "closeBefore":
+					c.users[pos] = replySpec{behaviour{kind: "closeBefore"}, "X"}
+				default:
+					c.users[pos] = replySpec{behaviour{kind: "garbled", k: 0}, "P invalidMagic 0"}
+				}
+				c.args = append(c.args, "-splitrequests", c.reqText)
+				add(c)
 			}
 		}
 		// unusual but legal user names and passwords on the command line
